@@ -84,6 +84,19 @@ def evaluate(case):
         _, vn, _ = tr.fourier_transform(x, y, xo)
         if not np.array_equal(np.asarray(vn), v):
             fails.append("fourier_transform: the values depend on the uncertainties supplied with the data")
+    # ... whatever they are: an unknown uncertainty (NaN) or an unbounded one (inf) on a bin whose datum is finite says nothing about the datum;
+    # the value stays the quadrature over the whole input grid
+    if len(x) >= 5:
+        for bad in (np.nan, np.inf):
+            dyb = np.full(len(x), 0.01) if dy is None else np.array(dy, dtype=float)
+            dyb[len(x) // 2] = bad
+            dyb[1] = bad
+            with np.errstate(all="ignore"):
+                _, vb, _ = tr.fourier_transform(x, y, xo, dy_in=dyb)
+            if not np.array_equal(np.asarray(vb), v):
+                fails.append(f"fourier_transform: the values change when the uncertainty of two interior bins is {bad} (data finite): "
+                             "bins are dropped from the quadrature")
+                break
     if v[0] != 0.0:
         fails.append(f"fourier_transform: value at x'=0 is {v[0]!r}, expected exactly 0")
     _, vm, _ = tr.fourier_transform(x, y, -xo)
